@@ -3,14 +3,18 @@ from vcommon import *
 import scen_common, prop_mu_family
 
 PID = "C02"
-PROP_V = "Props/Properties_C02.v"
+PROP_V = ["Props/Properties_C02.v", "Props/Properties_C02b.v"]
 GEN_MODULES = ["Consts", "Sites"]
 REPLAY_HINT = "VRT_SEED=<seed> [env] _work/h/<scenario>; a STUCK report lists the sleeping threads and the last steps"
-PARTIAL = ["the hand-off half is proved as the queue discipline (C02_queue_invariant: queued threads are distinct, waiting, inside lock_slow; "
-           "MU_WAITING is set whenever the queue is non-empty) and, in Properties_C13, the pinned lemma; the full 'no reachable stuck world' "
-           "theorem (WR invariant with the designated-waker cases) is not stated -- global progress is decided by the runtime's stuck detector "
-           "over sampled schedules",
-           "fair-scheduler liveness is not claimed"]
+PARTIAL = ["hand-off half, proved (Properties_C02b over MuModel, any threads/programs/schedules): in a quiescent reachable world every thread "
+           "asleep in nsync_mu_lock / nsync_mu_rlock faces a mutex that is HELD (C02_no_lost_handoff_partial; writer half at full strength), it "
+           "is on the queue with its flag set, MU_WAITING is set and MU_DESIG_WAKER / MU_ALL_FALSE / the spinlock are clear "
+           "(C02_holder_is_responsible), and the last holder's release cannot take any path that wakes nobody (C02_last_holder_must_scan).  "
+           "The design's first reading of the reader half ('a sleeping reader implies a WRITE holder') is refuted by two schedules "
+           "(C02_no_lost_handoff_refuted: a reader queued behind a writer beside a read holder; C02_reader_sleeps_beside_reader: after a "
+           "designated-waker race) -- both are nsync's writer-priority design, and in both the read holder's release is forced to wake the sleeper",
+           "fair-scheduler liveness ('eventually returns') is not a theorem: spin loops that retry a CAS are not bounded; global progress over "
+           "sampled schedules is decided by the runtime's stuck / livelock detector"]
 TRUSTED_BASE = ["Model/MuModel.v control skeleton validated by lock-step replay; abstract counting semaphore in the model (C12 is its licence)"]
 
 
